@@ -26,11 +26,15 @@ def _is_no_parent(value) -> bool:
     return bool(pd.isna(value)) or value == -1
 
 
-def _ensure_integer_ids(df: pd.DataFrame) -> pd.DataFrame:
-    """Ensure that the 'id' column in the dataframe contains integer values.
+def _ensure_integer_ids(
+    df: pd.DataFrame, id_col: str = "id", parent_col: str = "parent_id"
+) -> pd.DataFrame:
+    """Ensure that the id column in the dataframe contains integer values.
 
     Args:
-        df: A pandas dataframe with columns named "id" and "parent_id"
+        df: A pandas dataframe with an id column and a parent id column
+        id_col: Name of the id column. Defaults to "id".
+        parent_col: Name of the parent id column. Defaults to "parent_id".
 
     Returns:
         pd.DataFrame: The same dataframe with the ids remapped to be unique integers.
@@ -40,22 +44,22 @@ def _ensure_integer_ids(df: pd.DataFrame) -> pd.DataFrame:
         ValueError: if a parent id is neither the id of a row nor one of the
             "no parent" encodings (-1, empty string, missing value)
     """
-    if not pd.api.types.is_integer_dtype(df["id"]):
-        unique_ids = df["id"].unique()
+    if not pd.api.types.is_integer_dtype(df[id_col]):
+        unique_ids = df[id_col].unique()
         id_mapping = {
             original_id: new_id for new_id, original_id in enumerate(unique_ids, start=1)
         }
         unknown_parents = [
             parent_id
-            for parent_id in df["parent_id"]
+            for parent_id in df[parent_col]
             if parent_id not in id_mapping and not _is_no_parent(parent_id)
         ]
         if unknown_parents:
             raise ValueError(
                 f"Some parent ids do not refer to any node id: {unknown_parents}"
             )
-        df["id"] = df["id"].map(id_mapping)
-        df["parent_id"] = df["parent_id"].map(id_mapping).astype(pd.Int64Dtype())
+        df[id_col] = df[id_col].map(id_mapping)
+        df[parent_col] = df[parent_col].map(id_mapping).astype(pd.Int64Dtype())
 
     return df
 
@@ -98,13 +102,17 @@ class CSVTracksBuilder(TracksBuilder):
             else source.copy()  # Make a copy to avoid modifying original
         )
 
+        # The id and parent id columns may have other names in the source
+        id_col = node_name_map.get("id", "id")
+        parent_col = node_name_map.get("parent_id", "parent_id")
+
         # Validate that 'id' column contains unique values
-        if "id" in df.columns and not df["id"].is_unique:
+        if id_col in df.columns and not df[id_col].is_unique:
             raise ValueError("The 'id' column must contain unique values")
 
         # Ensure integer IDs (convert string IDs to integers if needed)
-        if "id" in df.columns and "parent_id" in df.columns:
-            df = _ensure_integer_ids(df)
+        if id_col in df.columns and parent_col in df.columns:
+            df = _ensure_integer_ids(df, id_col, parent_col)
 
         # For backward compatibility, extend node_name_map with node_features
         # Only add features that should be loaded (recompute=False)
